@@ -509,6 +509,7 @@ bool Json::Private::parse(const char* data, Variant& result)
   start = data;
   pos.line = 1;
   pos.pos = start;
+  result.clear();
 
   if(!readToken())
     return false;
